@@ -142,15 +142,21 @@ def hexLine (h : BB) : String := "0x" ++ String.ofList (hexDigits h.toNat)
 
 /-- `uci::moves::moves` — one token. Returns the new (pos, hist) and output lines; `none` = panic. -/
 def applyToken (pos : Position) (hist : List BB) (t : List Char) : Option (Position × List BB × List String) :=
-  let found := (legalMoves pos).find? fun m => toUciChars pos m == t
+  let legal := legalMoves pos
+  let found := legal.find? fun m => toUciChars pos m == t
+  -- the conventional castling strings: mover's king home square is E1 in the mover-relative frame;
+  -- only a legal castling move of the matching colour and wing is selected
+  let castling (whiteString : Bool) (file : Nat) : Option Mv :=
+    let mv : Mv := ⟨4, fromCoords file 0, 6⟩
+    if whiteString == !pos.black && pos.c0.isSet mv.dst && legal.contains mv then some mv else none
   let mv : Option Mv :=
     match found with
     | some m => some m
     | none =>
-      if t == str "e1g1" then some ⟨4, fromCoords pos.cf0 0, 6⟩
-      else if t == str "e1c1" then some ⟨4, fromCoords pos.cf1 0, 6⟩
-      else if t == str "e8g8" then some ⟨60, fromCoords pos.cf2 0, 6⟩
-      else if t == str "e8c8" then some ⟨60, fromCoords pos.cf3 0, 6⟩
+      if t == str "e1g1" then castling true pos.cf0
+      else if t == str "e1c1" then castling true pos.cf1
+      else if t == str "e8g8" then castling false pos.cf0
+      else if t == str "e8c8" then castling false pos.cf1
       else none
   match mv with
   | none => some (pos, hist, ["info string unknown move " ++ String.ofList t])
@@ -230,8 +236,9 @@ def doGo (ar : Arith) (clock : Nat → Bool) (s : UState) (toks : List (List Cha
     | .time wt bt mtg =>
       let us := if s.pos.black then bt else wt
       let _ := us
-      -- `ustime / mtg.unwrap_or(30)` : division by zero panics in every build
-      if mtg == some 0 then none else search (.clock clock)
+      -- budget `ustime / mtg.unwrap_or(30).max(1)`; the clock itself is the stop oracle
+      let _ := mtg
+      search (.clock clock)
     | .perft d =>
       let lines := (List.range d).foldl (fun (acc : Option (List String)) i =>
         match acc, perft (i + 1) s.pos with
@@ -240,7 +247,9 @@ def doGo (ar : Arith) (clock : Nat → Bool) (s : UState) (toks : List (List Cha
         | _, _ => none) (some [])
       lines.map fun l => (s, l)
     | .split d =>
-      match u8sub ar d 1 with
+      -- `depth.saturating_sub(1)`
+      let _ := ar
+      match some (d - 1) with
       | none => none
       | some d1 =>
         let r := (legalMoves s.pos).foldl (fun (acc : Option (List String × Nat)) m =>
